@@ -205,6 +205,9 @@ var storeNameSets = [][]string{
 	{"alpha", "beta", "gamma"}, {"alpha", "beta", "gamma"},
 	{"acme-rockets", "Acme-Rockets", "ACME-ROCKETS"},
 	{"alpha", "Alpha", "beta"},
+	// one name extends another (staged / versioned stores): different stores all the same
+	{"acme", "acme-staging", "acme.old"}, {"acme", "acme-staging", "acme.old"},
+	{"alpha", "alpha2", "alph"},
 }
 
 // place is what the generator put under one (type, name).
@@ -291,6 +294,32 @@ var scopePools = [][]string{
 	{"reg.example/a", "reg.example:443/a", "reg.example:5000/a"},
 	{"REG.example/a", "reg.example/a", "Reg.Example/a"},
 	{"xn--bcher-kva.example/app", "xn--bcher-kva.example:443/app", "buecher.example/app"},
+	// enclosing paths: a scope that is a /-boundary prefix of another repository is NOT its scope
+	{"reg.example/ns", "reg.example/ns/app", "reg.example/ns/app/sub"},
+	{"reg.example/ns", "reg.example/ns/app", "reg.example/ns/app/sub"},
+	{"registry.acme-rockets.io/software", "registry.acme-rockets.io/software/net-monitor", "registry.acme-rockets.io/software/net-monitor/v2"},
+	// ... nor is a scope that is a plain string prefix / suffix of it
+	{"reg.example/app", "reg.example/app-staging", "reg.example/app/v2"},
+	{"reg.example/team/app", "reg.example/app", "reg.example/team"},
+}
+
+// offPoolRepo: an artifact path no statement of the scenario can be scoped to - elsewhere, or
+// nested below / extending / enclosing one of the pool's paths.
+func offPoolRepo(r *rand.Rand) string {
+	base := pick(r, scopePool)
+	switch r.Intn(5) {
+	case 0:
+		return base + "/deeper"
+	case 1:
+		return base + "/deeper/still"
+	case 2:
+		return base + "-x"
+	case 3:
+		if i := strings.LastIndex(base, "/"); strings.Count(base, "/") > 1 {
+			return base[:i] // the enclosing path of a nested repository
+		}
+	}
+	return noneRepo
 }
 
 const noneRepo = "ghcr.io/none/none"
@@ -440,7 +469,7 @@ func genCase(r *rand.Rand) acase {
 	case x < 9:
 		a.repo = pick(r, scopePool)
 	default:
-		a.repo = noneRepo
+		a.repo = offPoolRepo(r)
 	}
 	// which statement applies (generator's own view, used only to steer the distribution)
 	app := -1
@@ -649,6 +678,19 @@ func genCase(r *rand.Rand) acase {
 	// hold a symbolic link to a certificate file; the real store refuses to load such a store.
 	// In the adversarial mode the link stands where a listed store of the required type is
 	// expected and points at a store holding the chain.
+	if a.backend == "dir" && !caOrSelfSigned[chain[0]] {
+		// a bundle file in which a CA certificate precedes the chain's (issued) leaf: the store must
+		// not load - every certificate of a file is checked, not only the first
+		for k := range a.places {
+			pl := &a.places[k]
+			if pl.kind == "certs" && pl.ty == want && listed[pl.name] && r.Intn(6) == 0 {
+				pl.certs, pl.fault = []int{rootU, chain[0]}, 0
+				if r.Intn(3) == 0 {
+					pl.certs = []int{chain[len(chain)-1], rootU, chain[0]}
+				}
+			}
+		}
+	}
 	if a.backend == "dir" {
 		var holders []int // places that hold certificates as plain directories
 		for k, pl := range a.places {
@@ -666,13 +708,52 @@ func genCase(r *rand.Rand) acase {
 			if a.mode == "good-broken" && pl.kind == "broken" && counts {
 				convert = r.Intn(2) == 0
 			}
+			// a sibling store whose name extends this one's (acme-staging for acme) is where a link
+			// "inside the store" by a careless prefix test would lead: favour link files there
+			extended := false
+			for _, h := range holders {
+				q := a.places[h]
+				if h != k && q.ty == pl.ty && q.name != pl.name && strings.HasPrefix(q.name, pl.name) {
+					extended = true
+				}
+			}
+			if extended && counts && a.mode != "good" {
+				convert = convert || r.Intn(2) == 0
+			}
 			if !convert {
 				continue
 			}
-			if r.Intn(4) == 0 {
+			if r.Intn(4) == 0 || (extended && r.Intn(2) == 0) {
 				pl.kind = "linkfile"
 				if r.Intn(2) == 0 {
 					pl.certs = nil // nothing but the link
+				}
+				// where the linked certificate file lives: in a sibling store (preferably one whose name
+				// EXTENDS this store's name: acme -> acme-staging), in any other store, in this very
+				// store, outside the tree; relative or absolute
+				pl.link = pick(r, []string{"store", "store", "store", "storeAbs", "storeAbs", "self", "outside"})
+				if strings.HasPrefix(pl.link, "store") {
+					var ext, cands []int
+					for _, h := range holders {
+						if h == k || len(a.places[h].certs) == 0 {
+							continue
+						}
+						cands = append(cands, h)
+						if a.places[h].ty == pl.ty && strings.HasPrefix(a.places[h].name, pl.name) {
+							ext = append(ext, h)
+						}
+					}
+					switch {
+					case len(ext) > 0 && r.Intn(4) != 0:
+						pl.target = ext[r.Intn(len(ext))]
+					case len(cands) > 0:
+						pl.target = cands[r.Intn(len(cands))]
+					default:
+						pl.link = "outside"
+					}
+				}
+				if pl.link == "self" && len(pl.certs) == 0 {
+					pl.link = "outside"
 				}
 				continue
 			}
@@ -789,7 +870,7 @@ func history(r *rand.Rand, a acase) []call {
 			c.chain = otherOf(r, chainNames, a.chain)
 		case "otherStatement":
 			if a.testKind == "oci" {
-				c.repo = otherOf(r, append(append([]string{}, scopePool...), noneRepo), a.repo)
+				c.repo = otherOf(r, append(append([]string{}, scopePool...), noneRepo, offPoolRepo(r)), a.repo)
 			} else {
 				c.repo = otherOf(r, append(append([]string{}, a.names...), a.name(-1), "", " "), a.repo)
 			}
@@ -958,8 +1039,30 @@ func dirWorld(p *pki, places []place, tsroot, liveRoot string, chain []int) []St
 		case "linkfile":
 			// good certificates (or none) and a symbolic link to a certificate file: does not load
 			write()
-			mkOutside()
-			must(os.Symlink(outsideFile, filepath.Join(d, "50-link.pem")))
+			firstFile := func(q place) string {
+				if len(q.certs) == 0 {
+					return "50-link.pem" // the target store became a link-only store itself: a link to a link
+				}
+				if len(q.certs) > 1 && q.fault == 0 {
+					return "bundle.pem"
+				}
+				return fmt.Sprintf("%02d-cert%d.crt", 0, q.certs[0])
+			}
+			var to string
+			switch pl.link {
+			case "store":
+				q := places[pl.target]
+				to = filepath.Join("..", "..", q.ty, q.name, firstFile(q))
+			case "storeAbs":
+				q := places[pl.target]
+				to = filepath.Join(liveRoot, "x509", q.ty, q.name, firstFile(q))
+			case "self":
+				to = firstFile(pl)
+			default:
+				mkOutside()
+				to = outsideFile
+			}
+			must(os.Symlink(to, filepath.Join(d, "50-link.pem")))
 			st.Ok = false
 		case "empty":
 			st.Ok = false // "no x509 certificates were found"
@@ -1424,7 +1527,7 @@ func Run(c *common.Ctx) error {
 		}
 		for _, pl := range a.places {
 			if pl.kind == "symlink" || pl.kind == "linkfile" {
-				c.Count("store-kind=" + pl.kind)
+				c.Count("store-kind=" + pl.kind + "/" + pl.link)
 			}
 		}
 		for _, cl := range calls {
